@@ -73,6 +73,16 @@ class Clock:
 
 
 def make_names(kind, d):
+    base = _make_names(kind, min(d, 8))
+    if d > 8:        # wide explainers: the pools continue with generated names of the same kind
+        ext = {"str": lambda j: f"g{(j * 7) % 101}_{j}", "int": lambda j: j, "float": lambda j: j + 0.5,
+               "mixed": lambda j: [f"m{j}", 100 + j, 100.5 + j][j % 3], "spelled": lambda j: [str(200 + j), 300 + j][j % 2],
+               "odd": lambda j: [f" x{j}", -100 - j, float(10 ** (20 + j))][j % 3]}[kind]
+        base = list(base) + [ext(j) for j in range(8, d)]
+    return base
+
+
+def _make_names(kind, d):
     if kind == "str":
         return ["f3", "f0", "f7", "f1", "f5", "f2", "f6", "f4"][:d]      # deliberately not in sorted order
     if kind == "int":
@@ -239,9 +249,10 @@ class UniqueStream:
     """Observations whose every feature value is globally unique, so a model input identifies the
     stored observation each value came from.  value = base + 1000*t + j  (exactly representable)."""
 
-    def __init__(self, names, seed=0, exact=False, ykind="int", extras=(), shuffle_keys=False):
+    def __init__(self, names, seed=0, exact=False, ykind="int", extras=(), shuffle_keys=False, str_values=False):
         self.names, self.rnd, self.t, self.exact, self.ykind = list(names) + list(extras), random.Random(seed), 0, exact, ykind
         self.shuffle_keys = shuffle_keys
+        self.str_values = str_values      # features 1, 5, 9, ... are categorical with STRING values (one of them the empty string)
         self.origin = {}
         # every even-indexed feature carries ONE falsy value (0, 0.0 or False) at some early time: still unique per
         # feature, and legal input ("unusual input" class: zero / boolean feature values)
@@ -254,11 +265,17 @@ class UniqueStream:
         x = {}
         for j, n in enumerate(self.names):
             v = 1000 * (t + 1) + j
+            if self.str_values and j % 4 == 1:
+                v = f"cat{t}_{j}" if t != 3 else ""
             if j in self.falsy_at and self.falsy_at[j][0] == t:
                 v = self.falsy_at[j][1]
             x[n] = v
             self.origin[(repr(n), v)] = t
         y = self.rnd.randrange(-5, 6)
+        if self.ykind == "str":
+            y = ["no", "yes", "maybe", ""][y % 4]
+        elif self.ykind == "bool":
+            y = bool(y % 2)
         if self.shuffle_keys:
             ks = list(x)
             self.rnd.shuffle(ks)
